@@ -573,7 +573,13 @@ def m_option_eq(ex, callee, args, ret_ty, frame):
     else:
         x, y = ex.adt_fields(a, 1)[0], ex.adt_fields(b, 1)[0]
         inner = ty_args(norm_ty(a.ty))[0] if ty_args(norm_ty(a.ty)) else None
-        tx = deref(ex, x)
+        tx, ty_ = deref(ex, x), deref(ex, y)
+        if isinstance(tx, VInt) and isinstance(ty_, VInt):
+            r = VBool(tx.bv == ty_.bv)              # chars and integers compare by value
+            return VBool(z3.Not(r.b)) if callee.endswith("::ne") else r
+        if isinstance(tx, VBool) and isinstance(ty_, VBool):
+            r = VBool(tx.b == ty_.b)
+            return VBool(z3.Not(r.b)) if callee.endswith("::ne") else r
         tname = base_ty(getattr(tx, "ty", "") or "")
         f = None
         for cand in ex.P.trait_impls.get((tname, "PartialEq", "eq"), []):
